@@ -142,7 +142,7 @@ fn speed_pts(p: &PathTpc) -> Vec<(f64, f64)> {
 }
 
 /// C02 / C13 on the current path (prefix of the route)
-fn check_speeds(ctx: &mut Ctx, p: &PathTpc, links: &[Link], route_done: &[usize], t: &TrainSpec, after: &str, ulp_slack: bool) {
+pub fn check_speeds(ctx: &mut Ctx, p: &PathTpc, links: &[Link], route_done: &[usize], t: &TrainSpec, after: &str, ulp_slack: bool) {
     let pts = speed_pts(p);
     let tr = train_ref(t);
     let restr = route_restrictions(links, route_done, &tr);
